@@ -8,6 +8,7 @@ import Uquic.Proofs.SentAcked
 import Uquic.Proofs.SentTimer
 import Uquic.Proofs.SentSkipped
 import Uquic.Proofs.SentDisc
+import Uquic.Proofs.SentOverdue
 
 namespace Uquic.Props.C06
 open Uquic.Model.Sent Uquic.Proofs.Sent List
@@ -346,6 +347,21 @@ example : let s := ((State.new 0 false true 300).run [(.send .initial 1000 (-1) 
 theorem discarded_only_when_dropped (s : State) (hr : Reached s) (op : Op) (e : StepEnv)
     (hk : Op.keepsFrames op = true) (hok : (s.step op e).2.res = .ok) : (s.step op e).2.disc = [] :=
   step_disc hr.1 hk hok
+
+/-! ### loss detection is complete -/
+
+/-- **overdue_declared_lost**: in a reached state, whenever `detectLostPackets` runs on a packet number space
+    (after an ACK that newly acknowledged something, or when the loss timer fires) it completes, and afterwards
+    the space tracks no packet at or below `largestAcked` that was sent at least
+    `max(9/8·max(latest_rtt, smoothed_rtt), granularity)` ago or that is `packetThreshold` or more packet numbers
+    behind — for every kind of packet, Path MTU probes (ack-eliciting, in flight, but not "outstanding")
+    included.  With `ledger` their frames have therefore been reported lost. -/
+theorem overdue_declared_lost (s : State) (hr : Reached s) (env : Env) (now : Time) (lvl : Level) (sp : Space)
+    (hg : s.getSpace lvl = some sp) :
+    ∃ sp', (s.detectLostPackets env now lvl).1.getSpace lvl = some sp' ∧ (s.detectLostPackets env now lvl).2.2 = none ∧
+      ∀ q p, sp'.hist.lookup q = some p → q ≤ sp.largestAcked →
+        ¬ (p.sendTime ≤ now - lossDelayOf env ∨ sp.hist.difference sp.largestAcked q ≥ packetThreshold) :=
+  detectLostPackets_no_overdue hr.1 hg
 
 /-! ### which skipped numbers are remembered -/
 
